@@ -4,6 +4,7 @@
   this closes the chain text → tokens → vector → value.
 -/
 import YashModel.Arith.Render
+import YashModel.Arith.RenderD
 import YashModel.Arith.RoundTrip
 import YashModel.Arith.SemMain
 namespace YashModel.Arith
@@ -322,5 +323,391 @@ theorem evalStr_spell_render (e : Spec.Expr) (env : Env) (hs : Spec.inScope e = 
     rw [hc] at this
     simp only at this ⊢
     simp [this, Outcome.ofRes]
+
+/-! ## every spelling: any white space (also none where two tokens cannot run together), any notation of
+     the constants -/
+
+/-- the characters operator lexemes other than the parentheses are made of -/
+def isOpChar (c : Char) : Bool :=
+  c == '+' || c == '-' || c == '<' || c == '>' || c == '=' || c == '&' || c == '|' || c == '!' || c == '*' ||
+  c == '/' || c == '%' || c == '^' || c == '~' || c == '?' || c == ':'
+
+def isParenOp (o : Operator) : Bool := o == .OpenParen || o == .CloseParen
+
+/-- what may directly follow the text of a token without changing how it is read -/
+def Terminates : Tok → List Char → Prop
+  | .op o, c :: _ => isParenOp o = true ∨ isOpChar c = false
+  | .term _, c :: _ => isTermChar c = false
+  | _, _ => True
+
+theorem opChar_ne (c : Char) (h : isOpChar c = false) :
+    c ≠ '+' ∧ c ≠ '-' ∧ c ≠ '<' ∧ c ≠ '>' ∧ c ≠ '=' ∧ c ≠ '&' ∧ c ≠ '|' ∧ c ≠ '!' ∧ c ≠ '*' ∧ c ≠ '/' ∧
+    c ≠ '%' ∧ c ≠ '^' ∧ c ≠ '~' ∧ c ≠ '?' ∧ c ≠ ':' := by
+  unfold isOpChar at h
+  simp only [Bool.or_eq_false_iff, beq_eq_false_iff_ne, ne_eq] at h
+  obtain ⟨⟨⟨⟨⟨⟨⟨⟨⟨⟨⟨⟨⟨⟨h1, h2⟩, h3⟩, h4⟩, h5⟩, h6⟩, h7⟩, h8⟩, h9⟩, h10⟩, h11⟩, h12⟩, h13⟩, h14⟩, h15⟩ := h
+  exact ⟨h1, h2, h3, h4, h5, h6, h7, h8, h9, h10, h11, h12, h13, h14, h15⟩
+
+theorem nextToken_drop (ws s : List Char) (hws : ∀ c ∈ ws, isWhitespace c = true) :
+    nextToken (ws ++ s) = nextToken s := by
+  have : (ws ++ s).dropWhile isWhitespace = s.dropWhile isWhitespace := by
+    induction ws with
+    | nil => rfl
+    | cons a t ih =>
+      simp only [List.cons_append, List.dropWhile, hws a (by simp)]
+      exact ih (fun c hc => hws c (by simp [hc]))
+  simp only [nextToken, this]
+
+/-- the tokenizer at an operator lexeme followed by anything that cannot extend it -/
+theorem nextToken_op_general (o : Operator) (rest : List Char) (h : Terminates (.op o) rest) :
+    nextToken (lexemeOf o ++ rest) = some (.op o, rest) := by
+  cases rest with
+  | nil =>
+    cases o <;>
+      simp [nextToken, lexemeOf, operators, findOp, List.find?, List.isPrefixOf, List.dropWhile, isWhitespace]
+  | cons c r =>
+    simp only [Terminates] at h
+    by_cases hp : isParenOp o = true
+    · cases o <;> first
+        | (simp [isParenOp] at hp; done)
+        | simp [nextToken, lexemeOf, operators, findOp, List.find?, List.isPrefixOf, List.dropWhile, isWhitespace]
+    · have hc : isOpChar c = false := by
+        rcases h with h | h
+        · exact absurd h hp
+        · exact h
+      obtain ⟨h1, h2, h3, h4, h5, h6, h7, h8, h9, h10, h11, h12, h13, h14, h15⟩ := opChar_ne c hc
+      have b1 : ('+' == c) = false := beq_eq_false_iff_ne.mpr (Ne.symm h1)
+      have b2 : ('-' == c) = false := beq_eq_false_iff_ne.mpr (Ne.symm h2)
+      have b3 : ('<' == c) = false := beq_eq_false_iff_ne.mpr (Ne.symm h3)
+      have b4 : ('>' == c) = false := beq_eq_false_iff_ne.mpr (Ne.symm h4)
+      have b5 : ('=' == c) = false := beq_eq_false_iff_ne.mpr (Ne.symm h5)
+      have b6 : ('&' == c) = false := beq_eq_false_iff_ne.mpr (Ne.symm h6)
+      have b7 : ('|' == c) = false := beq_eq_false_iff_ne.mpr (Ne.symm h7)
+      have b8 : ('!' == c) = false := beq_eq_false_iff_ne.mpr (Ne.symm h8)
+      have b9 : ('*' == c) = false := beq_eq_false_iff_ne.mpr (Ne.symm h9)
+      have b10 : ('/' == c) = false := beq_eq_false_iff_ne.mpr (Ne.symm h10)
+      have b11 : ('%' == c) = false := beq_eq_false_iff_ne.mpr (Ne.symm h11)
+      have b12 : ('^' == c) = false := beq_eq_false_iff_ne.mpr (Ne.symm h12)
+      have b13 : ('~' == c) = false := beq_eq_false_iff_ne.mpr (Ne.symm h13)
+      have b14 : ('?' == c) = false := beq_eq_false_iff_ne.mpr (Ne.symm h14)
+      have b15 : (':' == c) = false := beq_eq_false_iff_ne.mpr (Ne.symm h15)
+      cases o <;>
+        simp [nextToken, lexemeOf, operators, findOp, List.find?, List.isPrefixOf, List.dropWhile, isWhitespace,
+          b1, b2, b3, b4, b5, b6, b7, b8, b9, b10, b11, b12, b13, b14, b15]
+
+theorem takeWhile_term_general (x rest : List Char) (hx : ∀ c ∈ x, isTermChar c = true)
+    (hr : ∀ c, rest.head? = some c → isTermChar c = false) :
+    (x ++ rest).takeWhile isTermChar = x ∧ (x ++ rest).dropWhile isTermChar = rest := by
+  induction x with
+  | nil =>
+    cases rest with
+    | nil => simp
+    | cons c r => simp [List.takeWhile, List.dropWhile, hr c rfl]
+  | cons a t ih =>
+    have ha := hx a (by simp)
+    have := ih (fun c hc => hx c (by simp [hc]))
+    simp [List.takeWhile, List.dropWhile, ha, this.1, this.2]
+
+theorem nextToken_const_general (c : Char) (t rest : List Char)
+    (hterm : ∀ ch ∈ c :: t, isTermChar ch = true) (hd : isAsciiDigit c = true) (i : Int)
+    (hp : parseConstant (c :: t) = some i) (hr : ∀ d, rest.head? = some d → isTermChar d = false) :
+    nextToken (c :: t ++ rest) = some (.term (.value i), rest) := by
+  have hc := hterm c (by simp)
+  have hw := not_whitespace_of_term c hc
+  obtain ⟨htk, hdr⟩ := takeWhile_term_general (c :: t) rest hterm hr
+  simp only [List.cons_append] at htk hdr
+  simp only [nextToken, List.cons_append, List.dropWhile, hw, List.head?_cons, findOp_term c _ hc, htk, hdr,
+    List.isEmpty_cons, Bool.false_eq_true, if_false, hd, if_true, hp]
+
+theorem nextToken_name_general (c : Char) (t rest : List Char)
+    (hterm : ∀ ch ∈ c :: t, isTermChar ch = true) (hd : isAsciiDigit c = false)
+    (hr : ∀ d, rest.head? = some d → isTermChar d = false) :
+    nextToken (c :: t ++ rest) = some (.term (.variable (c :: t)), rest) := by
+  have hc := hterm c (by simp)
+  have hw := not_whitespace_of_term c hc
+  obtain ⟨htk, hdr⟩ := takeWhile_term_general (c :: t) rest hterm hr
+  simp only [List.cons_append] at htk hdr
+  simp only [nextToken, List.cons_append, List.dropWhile, hw, List.head?_cons, findOp_term c _ hc, htk, hdr,
+    List.isEmpty_cons, Bool.false_eq_true, if_false, hd]
+
+/-- a text that spells a token: the lexeme of an operator; for a constant ANY literal the C rules give that
+    value (decimal, `0x`/`0X` hexadecimal, leading-`0` octal); the name of a variable -/
+def Spells (text : List Char) : Tok → Prop
+  | .op o => text = lexemeOf o
+  | .term (.value v) =>
+    (∀ ch ∈ text, isTermChar ch = true) ∧ (∀ c, text.head? = some c → isAsciiDigit c = true) ∧
+    Spec.constValue text = some v
+  | .term (.variable x) =>
+    text = x ∧ x ≠ [] ∧ (∀ ch ∈ x, isTermChar ch = true) ∧ (∀ c, x.head? = some c → isAsciiDigit c = false)
+  | .err => False
+
+theorem nextToken_spells (text rest : List Char) (t : Tok) (hs : Spells text t) (ht : Terminates t rest) :
+    nextToken (text ++ rest) = some (t, rest) ∧ t ≠ .err := by
+  cases t with
+  | err => exact absurd hs (by simp [Spells])
+  | op o =>
+    simp only [Spells] at hs
+    subst hs
+    exact ⟨nextToken_op_general o rest ht, by simp⟩
+  | term tm =>
+    have hr : ∀ d, rest.head? = some d → isTermChar d = false := by
+      intro d hd
+      cases rest with
+      | nil => simp at hd
+      | cons a r => simp only [List.head?_cons, Option.some.injEq] at hd; subst hd; exact ht
+    cases tm with
+    | value v =>
+      obtain ⟨hterm, hdig, hval⟩ := hs
+      cases text with
+      | nil => simp [Spec.constValue, Spec.constMagnitude, Spec.digitsValue, Option.bind] at hval
+      | cons c u =>
+        have hp : parseConstant (c :: u) = some v := by rw [parseConstant_eq_spec _ hterm]; exact hval
+        exact ⟨nextToken_const_general c u rest hterm (hdig c rfl) v hp hr, by simp⟩
+    | «variable» x =>
+      obtain ⟨rfl, hne, hterm, hdig⟩ := hs
+      cases text with
+      | nil => exact absurd rfl hne
+      | cons c u => exact ⟨nextToken_name_general c u rest hterm (hdig c rfl) hr, by simp⟩
+
+theorem opChar_cases (c : Char) (h : isOpChar c = true) : isTermChar c = false ∧ isWhitespace c = false := by
+  unfold isOpChar at h
+  simp only [Bool.or_eq_true, beq_iff_eq] at h
+  rcases h with ((((((((((((((h | h) | h) | h) | h) | h) | h) | h) | h) | h) | h) | h) | h) | h) | h) <;>
+    (subst h; decide)
+
+theorem term_not_op (c : Char) (h : isTermChar c = true) : isOpChar c = false := by
+  cases ho : isOpChar c with
+  | false => rfl
+  | true => have := (opChar_cases c ho).1; rw [h] at this; exact absurd this (by decide)
+
+theorem ws_not_op (c : Char) (h : isWhitespace c = true) : isOpChar c = false := by
+  cases ho : isOpChar c with
+  | false => rfl
+  | true => have := (opChar_cases c ho).2; rw [h] at this; exact absurd this (by decide)
+
+theorem ws_not_term (c : Char) (h : isWhitespace c = true) : isTermChar c = false := by
+  cases ht : isTermChar c with
+  | false => rfl
+  | true => have := not_whitespace_of_term c ht; rw [h] at this; exact absurd this (by decide)
+
+theorem lexeme_head (o : Operator) :
+    ∃ c t, lexemeOf o = c :: t ∧ isTermChar c = false ∧ (isParenOp o = true → isOpChar c = false) := by
+  cases o <;> refine ⟨_, _, rfl, ?_, ?_⟩ <;> decide
+
+/-- the first character of a token's text -/
+theorem spells_head (text : List Char) (t : Tok) (h : Spells text t) :
+    ∃ c u, text = c :: u ∧
+      (∀ o, t = .op o → isTermChar c = false ∧ (isParenOp o = true → isOpChar c = false)) ∧
+      (∀ tm, t = .term tm → isTermChar c = true ∧ isOpChar c = false) := by
+  cases t with
+  | err => exact absurd h (by simp [Spells])
+  | op o =>
+    simp only [Spells] at h
+    obtain ⟨c, u, hl, h1, h2⟩ := lexeme_head o
+    exact ⟨c, u, by rw [h, hl], fun o' ho' => by injection ho' with ho'; subst ho'; exact ⟨h1, h2⟩,
+      fun tm htm => by simp at htm⟩
+  | term tm =>
+    cases tm with
+    | value v =>
+      obtain ⟨hterm, _, hval⟩ := h
+      cases text with
+      | nil => simp [Spec.constValue, Spec.constMagnitude, Spec.digitsValue, Option.bind] at hval
+      | cons c u =>
+        exact ⟨c, u, rfl, fun o ho => by simp at ho,
+          fun _ _ => ⟨hterm c (by simp), term_not_op c (hterm c (by simp))⟩⟩
+    | «variable» x =>
+      obtain ⟨rfl, hne, hterm, _⟩ := h
+      cases text with
+      | nil => exact absurd rfl hne
+      | cons c u =>
+        exact ⟨c, u, rfl, fun o ho => by simp at ho,
+          fun _ _ => ⟨hterm c (by simp), term_not_op c (hterm c (by simp))⟩⟩
+
+/-- a token, the text that spells it, the white space after it -/
+structure Piece where
+  tok : Tok
+  text : List Char
+  sep : List Char
+
+def flatten : List Piece → List Char
+  | [] => []
+  | p :: ps => p.text ++ (p.sep ++ flatten ps)
+
+/-- two tokens that may stand next to each other without white space: a term and an operator (either
+    order), or two operators one of which is a parenthesis -/
+def glueSafe : Tok → Tok → Prop
+  | .term _, .op _ => True
+  | .op _, .term _ => True
+  | .op o, .op o' => isParenOp o = true ∨ isParenOp o' = true
+  | _, _ => False
+
+def PiecesOK : List Piece → Prop
+  | [] => True
+  | p :: ps =>
+    Spells p.text p.tok ∧ (∀ c ∈ p.sep, isWhitespace c = true) ∧
+    (p.sep = [] → match ps with | [] => True | q :: _ => glueSafe p.tok q.tok) ∧ PiecesOK ps
+
+theorem pieces_terminate (p : Piece) (ps : List Piece) (h : PiecesOK (p :: ps)) :
+    Terminates p.tok (p.sep ++ flatten ps) := by
+  obtain ⟨hsp, hws, hglue, hrest⟩ := h
+  cases hsep : p.sep with
+  | cons a r =>
+    have ha := hws a (by rw [hsep]; simp)
+    cases htok : p.tok with
+    | op o => simp only [List.cons_append, Terminates]; exact Or.inr (ws_not_op a ha)
+    | term tm => simp only [List.cons_append, Terminates]; exact ws_not_term a ha
+    | err => trivial
+  | nil =>
+    have hg := hglue hsep
+    cases ps with
+    | nil =>
+      simp only [flatten, List.append_nil]
+      cases p.tok <;> trivial
+    | cons q qs =>
+      obtain ⟨hq, _⟩ := hrest
+      obtain ⟨c, u, hc, hclsO, hclsT⟩ := spells_head q.text q.tok hq
+      simp only at hg
+      simp only [flatten, List.nil_append, hc, List.cons_append]
+      cases htok : p.tok with
+      | err => trivial
+      | op o =>
+        simp only [Terminates]
+        rw [htok] at hg
+        cases hqt : q.tok with
+        | err => rw [hqt] at hq; exact absurd hq (by simp [Spells])
+        | term tm =>
+          exact Or.inr (hclsT tm hqt).2
+        | op o' =>
+          rw [hqt] at hg
+          simp only [glueSafe] at hg
+          rcases hg with hg | hg
+          · exact Or.inl hg
+          · exact Or.inr ((hclsO o' hqt).2 hg)
+      | term tm =>
+        simp only [Terminates]
+        rw [htok] at hg
+        cases hqt : q.tok with
+        | err => rw [hqt] at hq; exact absurd hq (by simp [Spells])
+        | term tm' => rw [hqt] at hg; exact absurd hg (by simp [glueSafe])
+        | op o' => exact (hclsO o' hqt).1
+
+/-- ☆ the tokenizer reads every spelling of a token list back as that list: any (Unicode) white space before,
+    between and after the tokens — none at all where `glueSafe` allows it — and any notation of the constants -/
+theorem tokenize_pieces (ps : List Piece) : ∀ (lead : List Char) (f : Nat), PiecesOK ps →
+    (∀ c ∈ lead, isWhitespace c = true) → (lead ++ flatten ps).length < f →
+    tokenize f (lead ++ flatten ps) = ps.map (·.tok) := by
+  induction ps with
+  | nil =>
+    intro lead f _ hlead hf
+    cases f with
+    | zero => omega
+    | succ f =>
+      have : nextToken lead = none := by
+        have := nextToken_drop lead [] hlead
+        rw [List.append_nil] at this
+        rw [this]; rfl
+      simp [flatten, tokenize, this]
+  | cons p ps ih =>
+    intro lead f hok hlead hf
+    cases f with
+    | zero => omega
+    | succ g =>
+      obtain ⟨hn, hne⟩ := nextToken_spells p.text (p.sep ++ flatten ps) p.tok hok.1 (pieces_terminate p ps hok)
+      obtain ⟨c, u, hc, _, _⟩ := spells_head p.text p.tok hok.1
+      have hnext : nextToken (lead ++ flatten (p :: ps)) = some (p.tok, p.sep ++ flatten ps) := by
+        rw [nextToken_drop lead _ hlead]; exact hn
+      have hlen : (p.sep ++ flatten ps).length < g := by
+        simp only [flatten, List.length_append, hc, List.length_cons] at hf ⊢
+        omega
+      have hstep : tokenize (g + 1) (lead ++ flatten (p :: ps)) = p.tok :: tokenize g (p.sep ++ flatten ps) := by
+        rw [tokenize, hnext]
+        cases htok : p.tok with
+        | err => exact absurd htok hne
+        | op o => rfl
+        | term tm => rfl
+      rw [hstep, ih p.sep g hok.2.2.2 hok.2.1 hlen]
+      rfl
+
+/-- the text of any spelling of a tree's tokens parses to the tree's vector -/
+theorem parse_pieces (e : Spec.Expr) (ps : List Piece) (lead : List Char) (hps : PiecesOK ps)
+    (hlead : ∀ c ∈ lead, isWhitespace c = true) (htoks : ps.map (·.tok) = render e) :
+    parse (lead ++ flatten ps) = .ok (rpn e) := by
+  unfold parse
+  simp only [tokenize_pieces ps lead _ hps hlead (Nat.lt_succ_self _), htoks]
+  exact parseToks_render e _ (Nat.le_refl _)
+
+theorem evalStr_pieces (e : Spec.Expr) (env : Env) (hs : Spec.inScope e = true) (hl : litsInRange e)
+    (ps : List Piece) (lead : List Char) (hps : PiecesOK ps)
+    (hlead : ∀ c ∈ lead, isWhitespace c = true) (htoks : ps.map (·.tok) = render e) :
+    match Spec.evalExact e env with
+    | some (v, env') => evalStr (lead ++ flatten ps) env = .value v env'
+    | none => ∃ err, evalStr (lead ++ flatten ps) env = .evalError err := by
+  unfold evalStr
+  rw [parse_pieces e ps lead hps hlead htoks]
+  have := evalValue_rpn e env hs hl
+  cases hc : Spec.evalExact e env with
+  | none =>
+    rw [hc] at this
+    obtain ⟨err, he⟩ := this
+    exact ⟨err, by simp [he, Outcome.ofRes]⟩
+  | some p =>
+    obtain ⟨v, env'⟩ := p
+    rw [hc] at this
+    simp only at this ⊢
+    simp [this, Outcome.ofRes]
+
+theorem evalStr_piecesD (d : Deco) (e : Spec.Expr) (env : Env) (hs : Spec.inScope e = true)
+    (hl : litsInRange e) (ps : List Piece) (lead : List Char) (hps : PiecesOK ps)
+    (hlead : ∀ c ∈ lead, isWhitespace c = true) (htoks : ps.map (·.tok) = renderTop d e) :
+    match Spec.evalExact e env with
+    | some (v, env') => evalStr (lead ++ flatten ps) env = .value v env'
+    | none => ∃ err, evalStr (lead ++ flatten ps) env = .evalError err := by
+  have hparse : parse (lead ++ flatten ps) = .ok (rpn e) := by
+    unfold parse
+    simp only [tokenize_pieces ps lead _ hps hlead (Nat.lt_succ_self _), htoks]
+    exact parseToks_renderD d e _ (Nat.le_refl _)
+  unfold evalStr
+  rw [hparse]
+  have := evalValue_rpn e env hs hl
+  cases hc : Spec.evalExact e env with
+  | none =>
+    rw [hc] at this
+    obtain ⟨err, he⟩ := this
+    exact ⟨err, by simp [he, Outcome.ofRes]⟩
+  | some p =>
+    obtain ⟨v, env'⟩ := p
+    rw [hc] at this
+    simp only at this ⊢
+    simp [this, Outcome.ofRes]
+
+/-- a constant written alone: its C value, or a token error when the literal is malformed or too large -/
+theorem evalStr_literal (c : Char) (t : List Char) (env : Env) (hterm : ∀ ch ∈ c :: t, isTermChar ch = true)
+    (hd : isAsciiDigit c = true) :
+    evalStr (c :: t) env =
+      match Spec.constValue (c :: t) with
+      | some v => .value v env
+      | none => .syntaxError .tokenError := by
+  have hc := hterm c (by simp)
+  have hw := not_whitespace_of_term c hc
+  obtain ⟨htk, hdr⟩ := takeWhile_term_general (c :: t) [] hterm (by simp)
+  simp only [List.append_nil] at htk hdr
+  have hnt : nextToken (c :: t) =
+      match parseConstant (c :: t) with
+      | some i => some (.term (.value i), [])
+      | none => some (.err, c :: t) := by
+    simp only [nextToken, List.dropWhile, hw, List.head?_cons, findOp_term c _ hc, htk, hdr,
+      List.isEmpty_cons, Bool.false_eq_true, if_false, hd, if_true]
+    cases parseConstant (c :: t) <;> rfl
+  rw [parseConstant_eq_spec _ hterm] at hnt
+  unfold evalStr parse
+  cases hv : Spec.constValue (c :: t) with
+  | none =>
+    rw [hv] at hnt
+    simp [tokenize, hnt, parseToks, parseTree, parseLeaf]
+  | some v =>
+    rw [hv] at hnt
+    have h2 : nextToken ([] : List Char) = none := rfl
+    simp [tokenize, hnt, h2, parseToks, parseTree, parseLeaf, parsePostfix, parseLoop, parseEndOfInput,
+      evalValue, eval, splitLast, Res.bind, intoValue, Outcome.ofRes]
 
 end YashModel.Arith
